@@ -3,6 +3,8 @@ package props
 import (
 	"encoding/json"
 	"fmt"
+	"runtime"
+	"runtime/debug"
 	"sort"
 	"strings"
 
@@ -508,7 +510,11 @@ func runC12(c *mc.Ctx) {
 						if bits := c12FlagBits(T, skip); (bits+7)/8 == B {
 							if !seenTS[[2]int{T, skip}] {
 								seenTS[[2]int{T, skip}] = true
-								for _, ex := range []string{"", "00", "ff", "000000"} {
+								exs := []string{"", "00", "ff", "000000"}
+								if T > 200000 && c.Quick() {
+									exs = []string{"", "00"} // the largest: honest and one unused byte (thorough: all four)
+								}
+								for _, ex := range exs {
 									fl = append(fl, c12Msg{NumTx: uint32(T), Dense: T, SkipFirst: skip, ExtraFlags: ex})
 								}
 							}
@@ -521,10 +527,23 @@ func runC12(c *mc.Ctx) {
 			// largest first, so that the long ones start together
 			sort.SliceStable(fl, func(i, j int) bool { return fl[i].Dense > fl[j].Dense })
 			c.Space("honest proofs of all but the first few leaves whose used flag bits end at chosen byte lengths (2^k, 2^k+-1, limit/4 and neighbours, the largest reachable), each honest and with 1 or 3 whole unused bytes appended", int64(len(fl)))
+			// a proof of two million leaves holds several hundred megabytes while it is evaluated (hash
+			// list, one object per hash for the wire message, the library's and the reference's match
+			// lists): at most three of them at a time, collected right away (the process-wide GC target of
+			// 800 % would otherwise let sixteen of them grow to tens of gigabytes)
+			bigSem := make(chan struct{}, 3)
 			c.ParFor(int64(len(fl)), func(w *mc.W, i int64) {
 				w.State()
+				if fl[i].Dense > 200000 {
+					bigSem <- struct{}{}
+					defer func() {
+						runtime.GC()
+						<-bigSem
+					}()
+				}
 				c12Eval(w, fl[i])
 			})
+			debug.FreeOSMemory()
 		}
 		c.Space("dense proofs (every flag bit set) with d equalised sibling pairs at level 0..2, k missing hashes, b missing flag bytes; d, k around 2^8, 2^9, 2^10 (2^16)", int64(len(ds)))
 		c.ParFor(int64(len(ds)), func(w *mc.W, i int64) {
